@@ -277,12 +277,37 @@ def lineage_interface_rates(ctx):
             ctx.count("lineage_interface_rate_cases")
 
 
+def autocatalytic_family(ctx):
+    """reactions that hand back more copies of a reactant than they take (A -> 3A, A + B -> 3A, A + A -> 4A + B, a delayed
+    part that returns two copies): the rate depends on the reactants alone, at the lowest counts too, through the bare
+    object and both interfaces in all four forms."""
+    sp = list(SPECIES)[:3]
+    a, b, c = sp
+    fam = [([a], [a, a, a], None), ([a, b], [a, a, a], None), ([a, a], [a, a, a, a, b], None), ([a], [], [a, a]), ([a, b], [b], [a, a, a]),
+           ([b, a, b], [b, b, b, b, b, a, a], None), ([c], [c, c, a], [c, c, c])]
+    pts = []
+    for xa, xb, xc in itertools.product((0, 1, 2, 3), (1, 2, 20), (1, 2)):
+        pts.append({"x": {a: Fraction(xa), b: Fraction(xb), c: Fraction(xc)}, "V": Fraction(3) if (xa + xb) % 2 else Fraction(1, 2), "t": Fraction(0)})
+    for reac, prods, dprods in fam:
+        rx = {"reactants": list(reac), "products": list(prods), "prop": {"type": "massaction", "k": "k0"}}
+        params = {"k0": Fraction(5, 2)}
+        if dprods is not None:
+            rx.update({"dreactants": [], "dproducts": list(dprods), "delay": {"type": "fixed", "delay": "tau"}})
+            params["tau"] = 1.0
+        before = len(ctx.violations)
+        check_spec(ctx, {"species": sp, "reactions": [rx], "params": params, "ic": {}}, pts)
+        if len(ctx.violations) > before:
+            return
+        ctx.count("autocatalytic_family")
+
+
 def run(ctx):
     lineage_interface_rates(ctx)
     npts = 4 if ctx.quick() else 12
     for spec in gen_models(ctx):
         pts = gen_points(ctx.rng, npts)
         check_spec(ctx, spec, pts)
+    autocatalytic_family(ctx)
 
 
 def replay(ctx, obj):
